@@ -1382,6 +1382,10 @@ macro_rules! filter_fixed_harness {
         #[kani::stub(crate::move_generator::targets::Targets::generate_attack_targets, crate::move_generator::targets::Targets::stub_attack)]
         #[kani::stub(::smallvec::SmallVec::append, crate::move_generator::VerifSv::append)]
         fn $name() {
+            if $case == 99 {
+                c01_filter_fixed_promo_pair();
+                return;
+            }
             c01_filter_fixed($case);
         }
     };
@@ -1392,6 +1396,49 @@ filter_fixed_harness!(c01_filter_fixed_capture, 2);
 filter_fixed_harness!(c01_filter_fixed_ep, 3);
 filter_fixed_harness!(c01_filter_fixed_castle, 4);
 filter_fixed_harness!(c01_filter_fixed_promo, 5);
+
+/// two capturing promotions onto the same square from both sides (black pawns d2, f2; white rook e1), with
+/// independent symbolic attack maps: each candidate keeps its own verdict, all four promotions of a pawn
+/// share it. Fixed position: the counterexample trace stays small enough to replay.
+fn c01_filter_fixed_promo_pair() {
+    // white: Ka4, Re1 ; black: Kh8, pawns d2, f2 ; black to move, no rights
+    let x = Raw { w: [0, 0, 0, 1 << 4, 0, 1 << 24], b: [(1 << 11) | (1 << 13), 0, 0, 0, 0, 1 << 63], ep: 0, rights: 0 };
+    assert!(rf::rep_inv(&x, false));
+    let a = Aux { ep_prefix: 0, rights_prefix: 0, half: [0, 3], full: 10, hash: 7, max_seen: [1, 1], turn_white: false };
+    let mut board = Board::verif_from_raw(&x, &a);
+    let p1: u8 = crate::verif_ref::vany();
+    let p2: u8 = crate::verif_ref::vany();
+    kani::assume(p1 >= 1 && p1 <= 4 && p2 >= 1 && p2 <= 4);
+    let m1 = RMove { kind: 1, from: 11, to: 4, promo: p1 as usize };
+    let m2 = RMove { kind: 1, from: 13, to: 4, promo: p2 as usize };
+    assert!(rf::legalish(&x, false, &m1) && rf::legalish(&x, false, &m2));
+    let e1 = engine_move(&x, false, &m1);
+    let e2 = engine_move(&x, false, &m2);
+    let a1: u64 = crate::verif_ref::vany();
+    let a2: u64 = crate::verif_ref::vany();
+    kani_att::reset([a1, a2, 0, 0]);
+    let mut t = Targets::verif_blank();
+    let mut cands = ChessMoveList::new();
+    cands.push(e1.clone());
+    cands.push(e2.clone());
+    remove_invalid_moves(&mut cands, &mut board, Color::Black, &mut t);
+    let king = x.b[rf::K];
+    let k1 = a1 & king == 0;
+    let k2 = a2 & king == 0;
+    assert!(kani_att::calls() == 2, "every candidate is tried on the board (no verdict is carried over from another candidate)");
+    assert!(cands.len() == k1 as usize + k2 as usize, "each promotion candidate is kept or dropped on its own verdict");
+    if k1 {
+        assert!(cands[0] == e1);
+    }
+    if k2 {
+        assert!(cands[k1 as usize] == e2);
+    }
+    assert!(raw_eq(&board.verif_raw(), &x));
+    core::mem::forget(t);
+    core::mem::forget(cands);
+    core::mem::forget(board);
+}
+filter_fixed_harness!(c01_filter_fixed_promo_pair_b, 99);
 
 // ---- smallvec cost probes (experimental; not part of any check) ----------------------------------
 fn sv_probe(which: u8) {
